@@ -33,15 +33,11 @@ Qed.
 Section Verify.
   Variable sigvalid : bytes -> bytes -> bytes -> bool.
   Variable pubvalid : bytes -> bool.
-  Variable deser : bytes -> option (list (bytes * val)).
-  Variable notify_fits : bytes -> bool.
-  Variable network : Z.
 
   Notation scan_pubs := (scan_pubs sigvalid pubvalid).
   Notation scan_sigs := (scan_sigs sigvalid pubvalid).
   Notation verify_loop := (verify_loop sigvalid pubvalid).
   Notation verify := (verify sigvalid pubvalid).
-  Notation submit := (submit sigvalid pubvalid deser notify_fits network).
 
   (** [k] produced a valid signature of [msg] among [sigs]. *)
   Definition signed_by (msg : bytes) (sigs : list bytes) (k : bytes) : Prop :=
@@ -297,7 +293,18 @@ Section Verify.
     intros Hr Hh. unfold verify. rewrite Hr. simpl. by apply verify_loop_complete.
   Qed.
 
-  (** * SubmitObjectPut *)
+End Verify.
+
+(** * SubmitObjectPut *)
+Section Submit.
+  Variable sigvalid : bytes -> bytes -> bytes -> bool.
+  Variable pubvalid : bytes -> bool.
+  Variable deser : bytes -> option (list (bytes * val)).
+  Variable notify_fits : bytes -> bool.
+  Variable network : Z.
+
+  Notation verify := (verify sigvalid pubvalid).
+  Notation submit := (submit sigvalid pubvalid deser notify_fits network).
 
   Definition submit_facts (s : store) (raw : bytes) (sigs : list (list bytes)) (cur : Z)
       (ns : list pnotif) : Prop :=
@@ -346,4 +353,4 @@ Section Verify.
       split; [exact Hvub|]. apply oassert_halt in Hv2. lia. }
     split; [exact Hver|reflexivity].
   Qed.
-End Verify.
+End Submit.
